@@ -103,7 +103,10 @@ fn fold_mem(files: &[String], order: &[usize]) -> Result<(String, usize), String
     Ok((String::from_utf8(out).map_err(|e| e.to_string())?, nerr))
 }
 
-const CORPUS: [(&str, &str, bool); 14] = [
+const CORPUS: [(&str, &str, bool); 17] = [
+    ("InModule", "pub mod outer { pub mod inner {\n#[typeshare]\npub struct InModule { pub m: u32 }\n} }\n", true),
+    ("InConstBlock", "const _: () = {\n    #[typeshare]\n    pub struct InConstBlock { pub c: u32 }\n};\n", true),
+    ("InFnBody", "pub fn helper() {\n    #[typeshare]\n    struct InFnBody { f: u32 }\n}\n", true),
     ("UserId", "#[typeshare]\npub struct UserId { pub v: u32 }\n", true),
     ("UserID", "#[typeshare]\npub struct UserID { pub w: String }\n", true),
     ("Qualified", "#[typeshare::typeshare]\npub struct Qualified { pub q: u32 }\n", true),
@@ -175,6 +178,61 @@ fn merge_case(k: usize, order: &[usize]) -> Option<String> {
     // C03: every helper type a back end derives from a struct variant is defined exactly once (Kotlin)
     if let Some(m) = kotlin_helpers(&files, order) { return Some(m); }
     if got.0 != base.0 { return Some(format!("output bytes differ from arrival order [0,1,2] (C06): {:?} vs {:?}", &got.0.chars().take(200).collect::<String>(), &base.0.chars().take(200).collect::<String>())); }
+    None
+}
+
+// ---------------------------------------------------------------- C06: import lines of one-module-per-crate output
+/// (crate, file, source): two library crates with a same-named type, an application crate whose files define a type of their own,
+/// import a same-named one, import `Shared` from either library, and combine a wildcard with an explicit import
+const IMPORT_FILES: [(&str, &str, &str); 8] = [
+    ("lib_a", "a.rs", "#[typeshare]\npub struct Shared { pub a: u32 }\n#[typeshare]\npub struct Dup { pub d: u32 }\n"),
+    ("lib_b", "b.rs", "#[typeshare]\npub struct Shared { pub b: u32 }\n"),
+    ("lib_c", "c.rs", "#[typeshare]\npub struct Extra1 { pub e: u32 }\n#[typeshare]\npub struct Extra2 { pub e: u32 }\n"),
+    ("app", "own.rs", "#[typeshare]\npub struct Dup { pub own: u32 }\n#[typeshare]\npub struct OwnUser { pub d: Dup }\n"),
+    ("app", "imp.rs", "use lib_a::Dup;\n#[typeshare]\npub struct UsesDup { pub d: Dup }\n"),
+    ("app", "s1.rs", "use lib_a::Shared;\n#[typeshare]\npub struct X { pub s: Shared }\n"),
+    ("app", "s2.rs", "use lib_b::Shared;\n#[typeshare]\npub struct Y { pub s: Shared }\n"),
+    ("app", "wild.rs", "use lib_c::*;\nuse lib_c::Extra1;\n#[typeshare]\npub struct W { pub e: Extra1, pub f: Extra2 }\n"),
+];
+/// fold the files in `order` as the CLI's collector does (multi-file mode), reconcile, collect the import candidates as
+/// cli/src/parse.rs all_types does, and generate one module per crate; lang 0 TypeScript, 1 Kotlin
+fn imports_generate(order: &[usize], lang: usize) -> Result<String, String> {
+    use std::collections::{BTreeMap, HashMap};
+    use typeshare_core::language::{CrateTypes, Kotlin, Language, TypeScript};
+    let ctx = ParseContext { multi_file: true, ..Default::default() };
+    let mut crates: BTreeMap<CrateName, ParsedData> = BTreeMap::new();
+    for &i in order {
+        let (c, f, src) = IMPORT_FILES[i];
+        let d = parse(&ctx, ParseFileContext { source_code: src.to_string(), crate_name: CrateName::from(c.to_string()), file_name: f.into(), file_path: f.into() }).map_err(|e| e.to_string())?;
+        if let Some(d) = d { let cn = d.crate_name.clone(); *crates.entry(cn).or_default() += d; }
+    }
+    typeshare_core::reconcile::reconcile_aliases(&mut crates);
+    let mut cands: CrateTypes = HashMap::new();
+    for (cn, d) in crates.iter_mut() { cands.entry(cn.clone()).or_default().extend(std::mem::take(&mut d.type_names)); }
+    let mut out: Vec<u8> = Vec::new();
+    for (cn, data) in crates {
+        out.extend(format!("=== module {}\n", cn).bytes());
+        let r = if lang == 0 { TypeScript { no_version_header: true, ..Default::default() }.generate_types(&mut out, &cands, data) }
+                else { Kotlin { package: "p".into(), no_version_header: true, ..Default::default() }.generate_types(&mut out, &cands, data) };
+        r.map_err(|e| e.to_string())?;
+    }
+    String::from_utf8(out).map_err(|e| e.to_string())
+}
+/// -> Some(description) when the modules generated for arrival order `order` differ from those for the identity order, or when
+/// repeating the same order (fresh hash tables, hence fresh hash seeds) gives different bytes
+fn imports_case(order: &[usize], repeats: usize) -> Option<String> {
+    let id: Vec<usize> = (0..IMPORT_FILES.len()).collect();
+    for lang in 0..2 {
+        let name = if lang == 0 { "TypeScript" } else { "Kotlin" };
+        let base = match imports_generate(&id, lang) { Ok(b) => b, Err(e) => return Some(format!("{} generation failed: {}", name, e)) };
+        for r in 0..repeats.max(1) {
+            let got = match imports_generate(order, lang) { Ok(b) => b, Err(e) => return Some(format!("{} generation failed: {}", name, e)) };
+            if got != base {
+                let line = got.lines().zip(base.lines()).find(|(a, b)| a != b).map(|(a, b)| format!("{:?} vs {:?}", a, b)).unwrap_or_else(|| "different length".into());
+                return Some(format!("{} modules (one per crate) differ between arrival order {:?} (run {}) and arrival order {:?}: {} (C06: same sources, same bytes)", name, order, r, id, line));
+            }
+        }
+    }
     None
 }
 
@@ -298,7 +356,7 @@ fn order_case(src: &str) -> Option<String> {
     // acyclic?
     let idx = |n: &str| names.iter().position(|x| x == n);
     let mut done = vec![false; names.len()];
-    loop { let mut progress = false; for (i, (_, m)) in refs.iter().enumerate() { if !done[i] && m.iter().all(|d| match idx(d) { Some(j) => j != i && done[j], None => true }) { done[i] = true; progress = true; } } if !progress { break; } }
+    loop { let mut progress = false; for (i, (_, m)) in refs.iter().enumerate() { if !done[i] && m.iter().all(|d| match idx(d) { Some(j) => j == i || done[j], None => true }) { done[i] = true; progress = true; } } if !progress { break; } }
     if !done.iter().all(|x| *x) { return None; } // cyclic reference graph: only the permutation guarantee applies
     for (n, m) in &refs { for dep in m { if dep != n && idx(dep).is_some() { if pos(dep)[0] > pos(n)[0] { return Some(format!("{} is emitted before {} which it refers to", n, dep)); } } } }
     None
@@ -316,6 +374,19 @@ fn order_program_renamed(n: usize, code: u64, w: usize, holder: usize, mask: u64
         if (mask >> i) & 1 == 1 { src += &format!("#[serde(rename = \"{}Renamed\")]\n", NODES[i]); }
         let refs: Vec<String> = (0..n).filter(|j| (code >> (i * n + j)) & 1 == 1).map(|j| WRAPPERS[w].replace("T", NODES[j])).collect();
         let h = if holder == 3 { i % 3 } else { holder };
+        if holder == 4 {
+            // struct fields carrying a per-language type override: the ordering is shared by all languages, the reference still counts
+            src += &format!("#[typeshare]\npub struct {} {{ {} pub own: u32 }}\n", NODES[i], refs.iter().enumerate().map(|(k, r)| format!("#[typeshare(typescript(type = \"any\"))] pub f{}: {}, ", k, r)).collect::<String>());
+            continue;
+        }
+        if holder == 5 || holder == 6 {
+            // self-referential enums: a self reference is not a cycle between distinct definitions, the other references still order
+            let me = NODES[i];
+            let body: String = if holder == 5 { refs.iter().enumerate().map(|(k, r)| format!("V{}(HashMap<{}, {}>), ", k, r, me)).collect() }
+                else { refs.iter().enumerate().map(|(k, r)| format!("V{}({}), ", k, r)).collect::<String>() + &format!("Me(Vec<{}>), ", me) };
+            src += &format!("#[typeshare]\n#[serde(tag = \"t\", content = \"c\")]\npub enum {} {{ {} Own(u32) }}\n", me, body);
+            continue;
+        }
         match h {
             0 => { src += &format!("#[typeshare]\npub struct {} {{ {} pub own: u32 }}\n", NODES[i], refs.iter().enumerate().map(|(k, r)| format!("pub f{}: {}, ", k, r)).collect::<String>()); }
             1 => { src += &format!("#[typeshare]\n#[serde(tag = \"t\", content = \"c\")]\npub enum {} {{ {} Own(u32) }}\n", NODES[i], refs.iter().enumerate().map(|(k, r)| format!("V{}({}), ", k, r)).collect::<String>()); }
@@ -516,12 +587,28 @@ fn main() {
             if a[1] == "merge-check" {
                 let k: usize = a[2].parse().unwrap();
                 let p: Vec<usize> = a[3].split(',').map(|x| x.trim().parse().unwrap()).collect();
+                if k == 100 && std::env::var("VERIF_SHOW").is_ok() { println!("{}", imports_generate(&p, 0).unwrap()); }
+                if k == 100 { if let Some(m) = imports_case(&p, 40) { report(k, &p, m); } println!("input passes"); std::process::exit(0); }
                 if let Some(m) = merge_case(k, &p) { report(k, &p, m); }
                 println!("input passes"); std::process::exit(0);
             }
             let mut tried = 0;
             for k in 0..8 { for p in permutations(NFILES) { tried += 1; if let Some(m) = merge_case(k, &p) { report(k, &p, m); } } }
-            println!("no failing input among {} (distribution of {} items over 3 files, arrival order) pairs; every output also compared with distribution 0", tried, CORPUS.len());
+            // distribution 100: the import lines of one-module-per-crate output (4 crates, 8 files): every arrival order, and the
+            // identity order repeated with fresh hash tables
+            let thorough = std::env::var("VERIF_TIER").map_or(false, |t| t == "thorough");
+            let id: Vec<usize> = (0..IMPORT_FILES.len()).collect();
+            if let Some(m) = imports_case(&id, 40) { report(100, &id, m); }
+            let mut orders = 0;
+            // arrival order only matters inside one crate's accumulator: every order of the application crate's 5 files, the
+            // library files before them (and, thorough tier, after them)
+            for q in permutations(5) {
+                let app: Vec<usize> = q.iter().map(|x| x + 3).collect();
+                let mut variants = vec![[vec![0, 1, 2], app.clone()].concat()];
+                if thorough { variants.push([app.clone(), vec![2, 1, 0]].concat()); variants.push([vec![1], app.clone(), vec![0, 2]].concat()); }
+                for p in variants { orders += 1; if let Some(m) = imports_case(&p, 1) { report(100, &p, m); } }
+            }
+            println!("no failing input among {} (distribution of {} items over 3 files, arrival order) pairs; every output also compared with distribution 0; import lines: {} arrival orders of 8 files in 4 crates x 2 languages + 40 repeats with fresh hash seeds", tried, CORPUS.len(), orders);
             std::process::exit(0);
         }
         Some("codable") => {
@@ -656,7 +743,8 @@ fn main() {
             let thorough = std::env::var("VERIF_TIER").map_or(false, |t| t == "thorough");
             for n in 2..=(if thorough { 5usize } else { 4usize }) { for code in 0..(1u64 << (n * n)) {
                 if !dag_acyclic(n, code) { continue; }
-                for w in 0..WRAPPERS.len() { for h in 0..4 {
+                for w in 0..WRAPPERS.len() { for h in 0..7 {
+                    if h >= 4 && n > 3 { continue; }
                     if n == 4 && h != 0 && h != 3 && !thorough { continue; }
                     if n == 5 && (h != 3 || w % 3 != (code % 3) as usize) { continue; }
                     tried += 1;
@@ -664,7 +752,7 @@ fn main() {
                     match panic::catch_unwind(move || order_case(&src)) { Ok(None) => {}, Ok(Some(m)) => report(n, code, w, h, m), Err(_) => report(n, code, w, h, "panicked".into()) }
                 } }
             } }
-            println!("no failing input among {} programs (all DAGs on 2..4 items x {} reference positions x 4 item shapes)", tried, WRAPPERS.len());
+            println!("no failing input among {} programs (all DAGs on 2..4 items x {} reference positions x 7 item shapes incl. self-referential enums)", tried, WRAPPERS.len());
             std::process::exit(0);
         }
         _ => { eprintln!("usage: verif-replay rename <rule> <field|variant> <ident>"); std::process::exit(2); }
